@@ -5,6 +5,7 @@ import CogentModel.Proofs.ViewSem
 import CogentModel.Proofs.ViewParent
 import CogentModel.Proofs.ViewChain
 import CogentModel.Proofs.SeqWrap
+import CogentModel.Proofs.C01GenEq
 /-! # C01 — property theorems (views obey the slice algebra)
 
 `Inv` is the representation invariant of slice records, `elems v` the list of
@@ -454,5 +455,415 @@ example : SeqWrap.value { parent := "ACGGTAAC".toList, v := { start := -2, stop 
     parentStart { start := -2, stop := -7, step := -2, offset := 5, seqLen := 8 } = .ok (5 + 2) ∧
     parentStop { start := -2, stop := -7, step := -2, offset := 5, seqLen := 8 } = .ok (5 + 7) ∧
     PySlice.slice (("ACGGTAAC".toList.take 7).drop 2) none none (-2) = "ATG".toList := by decide
+
+/-! ## translated_agrees_with_model
+
+`Gen/C01View.lean` is regenerated from the CURRENT python source on every check run by
+`translator/py2lean_view.py` (`GenOld` = core/sequence.py, `GenNew` = core/new_sequence.py, `GenData` =
+new_sequence.SliceRecordABC + new_alignment.SeqDataView).  The theorems of this section say that the translated
+entry points ARE the model functions all theorems above are about (per-function equivalences, for all arguments, in
+`Proofs/C01GenEq.lean`), and restate the headline theorems for the translated functions.  A semantic change of the
+python makes these stop checking. -/
+section translated_agrees_with_model
+open CogentModel.Gen.C01View
+
+/-- a chain run with an arbitrary step function -/
+def runOpsBy (st : View → Op → Except Err View) : View → List Op → Except Err View
+  | v, [] => .ok v
+  | v, op :: ops => match st v op with
+    | .ok w => runOpsBy st w ops
+    | .error e => .error e
+
+theorem runOpsBy_step1 (fl : Flavour) (v : View) (ops : List Op) : runOpsBy (step1 fl) v ops = runOps fl v ops := by
+  induction ops generalizing v with
+  | nil => rfl
+  | cons op ops ih =>
+    simp only [runOpsBy, runOps]
+    cases step1 fl v op with
+    | error e => rfl
+    | ok w => exact ih w
+
+example : runOpsBy (step1 .seqView) { start := 0, stop := 10, step := 1, offset := 0, seqLen := 10 } [.index 3]
+    = .ok { start := 3, stop := 4, step := 1, offset := 0, seqLen := 10 } := by rfl
+
+/-! ### GenOld -/
+
+/-- `GenOld.mk` (translated `SeqView.__init__`, with its `seq_len` argument absent or equal to `len(seq)`) is the
+model's constructor; any other `seq_len` raises `AssertionError` after the `step == 0` check -/
+theorem gen_old_mk (n : Int) (a b c : Option Int) (off : Int) :
+    GenOld.mk n a b c off none = mk n a b c off ∧ GenOld.mk n a b c off (some n) = mk n a b c off ∧
+    ∀ sl, GenOld.mk n a b c off sl =
+      if c = some 0 then .error .valueError else if sl ≠ none ∧ sl ≠ some n then .error .assertionError
+      else mk n a b c off :=
+  ⟨C01GenEq.Old.mk_none n a b c off, C01GenEq.Old.mk_some n a b c off, C01GenEq.Old.mk_full n a b c off⟩
+
+example : GenOld.mk 10 (some 7) (some 1) (some (-2)) 0 (some 10) = .ok { start := -3, stop := -9, step := -2, offset := 0, seqLen := 10 } := by rfl
+example : GenOld.mk 10 none none none 0 (some 9) = .error .assertionError := by rfl
+
+/-- translated `__len__` -/
+theorem gen_old_len : GenOld.len = len := C01GenEq.Old.len_eq
+
+example : GenOld.len { start := 1, stop := 8, step := 3, offset := 0, seqLen := 10 } = 3 := by rfl
+
+/-- translated `_get_index` -/
+theorem gen_old_getIndex : GenOld.getIndex = @getIndex := C01GenEq.Old.getIndex_eq
+
+example : GenOld.getIndex { start := -3, stop := -10, step := -2, offset := 0, seqLen := 10 } (-1) false = .ok (-9, -10, -1) := by rfl
+
+/-- translated `__getitem__` on a slice (with `_get_slice`, `_get_reverse_slice`, the four
+`_get_*_slice_from_*_seqview_` methods, `copy` and `_zero_slice` of this class) -/
+theorem gen_old_getitemSlice : GenOld.getitemSlice = getitemSlice .seqView := C01GenEq.Old.getitemSlice_eq
+
+example : GenOld.getitemSlice { start := 1, stop := 8, step := 2, offset := 0, seqLen := 10 } (some (-1)) (some 0) (some (-2))
+    = .ok { start := -3, stop := -9, step := -4, offset := 0, seqLen := 10 } := by rfl
+
+/-- translated `__getitem__` on an integer -/
+theorem gen_old_getitemInt : GenOld.getitemInt = getitemInt := C01GenEq.Old.getitemInt_eq
+
+example : GenOld.getitemInt { start := -3, stop := -10, step := -2, offset := 0, seqLen := 10 } 4 = .error .indexError := by rfl
+
+/-- translated `parent_start` / `parent_stop` -/
+theorem gen_old_parentStartStop : GenOld.parentStart = parentStart ∧ GenOld.parentStop = parentStop :=
+  ⟨C01GenEq.Old.parentStart_eq, C01GenEq.Old.parentStop_eq⟩
+
+example : GenOld.parentStart { start := -3, stop := -10, step := -2, offset := 5, seqLen := 10 } = .ok 6 ∧
+    GenOld.parentStop { start := 3, stop := 1, step := -2, offset := 5, seqLen := 10 } = .error .assertionError := by decide
+
+/-- translated `absolute_position` -/
+theorem gen_old_absolutePosition : GenOld.absolutePosition = @absolutePosition := C01GenEq.Old.absolutePosition_eq
+
+example : GenOld.absolutePosition { start := -3, stop := -10, step := -2, offset := 5, seqLen := 10 } 1 false = .ok 11 := by decide
+
+/-- translated `relative_position` -/
+theorem gen_old_relativePosition : GenOld.relativePosition = @relativePosition := C01GenEq.Old.relativePosition_eq
+
+example : GenOld.relativePosition { start := 1, stop := 8, step := 3, offset := 5, seqLen := 10 } 11 false = .ok 2 := by rfl
+
+/-- translated start/stop computation of `to_rich_dict` -/
+theorem gen_old_richDictBounds : GenOld.richDictBounds = richDictBounds := C01GenEq.Old.richDictBounds_eq
+
+example : GenOld.richDictBounds { start := -3, stop := -10, step := -2, offset := 0, seqLen := 10 } = (1, 8) := by rfl
+
+/-! ### the headline theorems, restated for the TRANSLATED functions of GenOld -/
+
+/-- `mk_inv` for the translated constructor -/
+theorem gen_old_mk_inv (n : Int) (hn : 0 ≤ n) (start stop step : Option Int) (offset : Int) (v : View)
+    (h : GenOld.mk n start stop step offset (some n) = .ok v) : Inv v := by
+  rw [(gen_old_mk n start stop step offset).2.1] at h
+  exact mk_inv n hn start stop step offset v h
+
+/-- `getitem_inv` for the translated `__getitem__` -/
+theorem gen_old_getitem_inv (v : View) (h : Inv v) (a b c : Option Int) (w : View)
+    (hw : GenOld.getitemSlice v a b c = .ok w) : Inv w := by
+  rw [gen_old_getitemSlice] at hw
+  exact getitem_inv .seqView v h a b c w hw
+
+/-- **`getitem_spec` for the translated `__getitem__`**: the python code, as translated on this run, displays
+exactly the Python slice of what the view displayed -/
+theorem gen_old_getitem_spec (v w : View) (a b c : Option Int) (h : Inv v) (hc : c ≠ some 0)
+    (hw : GenOld.getitemSlice v a b c = .ok w) :
+    elems w = (PySlice.sliceIdx (GenOld.len v).toNat a b (c.getD 1)).map (fun j => first v + j * v.step) := by
+  rw [gen_old_getitemSlice] at hw
+  rw [gen_old_len]
+  exact getitem_spec .seqView v w a b c h hc hw
+
+/-- `getitem_spec_list` for the translated `__getitem__` -/
+theorem gen_old_getitem_spec_list (v w : View) (a b c : Option Int) (h : Inv v) (hc : c ≠ some 0)
+    (hw : GenOld.getitemSlice v a b c = .ok w) : elems w = PySlice.slice (elems v) a b (c.getD 1) := by
+  rw [gen_old_getitemSlice] at hw
+  exact getitem_spec_list .seqView v w a b c h hc hw
+
+/-- `getitem_no_error` for the translated `__getitem__` -/
+theorem gen_old_getitem_no_error (v : View) (a b c : Option Int) (h : Inv v) (hc : c ≠ some 0) :
+    ∃ w, GenOld.getitemSlice v a b c = .ok w := by
+  rw [gen_old_getitemSlice]
+  exact getitem_no_error .seqView v a b c h hc
+
+/-- `getitem_int_spec` for the translated `__getitem__` -/
+theorem gen_old_getitem_int_spec (v : View) (h : Inv v) (i : Int) :
+    (∀ w, GenOld.getitemInt v i = .ok w → ∃ x, PySlice.index (elems v) i = some x ∧ elems w = [x]) ∧
+    (∀ e, GenOld.getitemInt v i = .error e → PySlice.index (elems v) i = none) := by
+  rw [gen_old_getitemInt]
+  exact getitem_int_spec v h i
+
+/-- `parent_coords_exact` for the translated `parent_start` / `parent_stop` -/
+theorem gen_old_parent_coords_exact (v : View) (h : Inv v) :
+    ∃ ps pe : Int, GenOld.parentStart v = .ok (v.offset + ps) ∧ GenOld.parentStop v = .ok (v.offset + pe) ∧
+      0 ≤ ps ∧ ps ≤ pe ∧ pe ≤ v.seqLen ∧
+      elems v = (PySlice.sliceIdx (pe - ps).toNat none none v.step).map (· + ps) := by
+  rw [gen_old_parentStartStop.1, gen_old_parentStartStop.2]
+  exact parent_coords_exact v h
+
+/-- one step of a chain, through the translated `__getitem__` -/
+def genStepOld (v : View) : Op → Except Err View
+  | .slice a b c => GenOld.getitemSlice v a b c
+  | .index i => GenOld.getitemInt v i
+
+theorem genStepOld_eq : genStepOld = step1 .seqView := by
+  funext v op
+  cases op <;> simp only [genStepOld, step1, gen_old_getitemSlice, gen_old_getitemInt]
+
+/-- **`chain_spec` / `reachable_inv` for the translated code**: any chain of slice / index operations (any depth, no
+zero step) run through the translated `__getitem__` keeps the invariant and displays what the same chain of Python
+list operations yields -/
+theorem gen_old_chain_spec (ops : List Op) (v w : View) (h : Inv v)
+    (hops : ∀ op ∈ ops, op.stepOk) (hw : runOpsBy genStepOld v ops = .ok w) :
+    Inv w ∧ specRun (elems v) ops = some (elems w) := by
+  rw [genStepOld_eq, runOpsBy_step1] at hw
+  exact ⟨reachable_inv .seqView ops v w h hw, chain_spec .seqView ops v w h hops hw⟩
+
+example : runOpsBy genStepOld { start := 0, stop := 10, step := 1, offset := 0, seqLen := 10 }
+    [.slice (some 1) (some 8) (some 2), .slice none none (some (-1)), .slice (some 1) none none, .index (-1)]
+    = .ok { start := -9, stop := -10, step := -1, offset := 0, seqLen := 10 } := by rfl
+
+/-! ### GenNew -/
+
+/-- `GenNew.mk` (translated `SeqView.__init__`, with its `seq_len` argument absent or equal to `len(seq)`) is the
+model's constructor; any other `seq_len` raises `AssertionError` after the `step == 0` check -/
+theorem gen_new_mk (n : Int) (a b c : Option Int) (off : Int) :
+    GenNew.mk n a b c off none = mk n a b c off ∧ GenNew.mk n a b c off (some n) = mk n a b c off ∧
+    ∀ sl, GenNew.mk n a b c off sl =
+      if c = some 0 then .error .valueError else if sl ≠ none ∧ sl ≠ some n then .error .assertionError
+      else mk n a b c off :=
+  ⟨C01GenEq.New.mk_none n a b c off, C01GenEq.New.mk_some n a b c off, C01GenEq.New.mk_full n a b c off⟩
+
+example : GenNew.mk 10 (some 7) (some 1) (some (-2)) 0 (some 10) = .ok { start := -3, stop := -9, step := -2, offset := 0, seqLen := 10 } := by rfl
+example : GenNew.mk 10 none none none 0 (some 9) = .error .assertionError := by rfl
+
+/-- translated `__len__` -/
+theorem gen_new_len : GenNew.len = len := C01GenEq.New.len_eq
+
+example : GenNew.len { start := 1, stop := 8, step := 3, offset := 0, seqLen := 10 } = 3 := by rfl
+
+/-- translated `_get_index` -/
+theorem gen_new_getIndex : GenNew.getIndex = @getIndex := C01GenEq.New.getIndex_eq
+
+example : GenNew.getIndex { start := -3, stop := -10, step := -2, offset := 0, seqLen := 10 } (-1) false = .ok (-9, -10, -1) := by rfl
+
+/-- translated `__getitem__` on a slice (with `_get_slice`, `_get_reverse_slice`, the four
+`_get_*_slice_from_*_seqview_` methods, `copy` and `_zero_slice` of this class) -/
+theorem gen_new_getitemSlice : GenNew.getitemSlice = getitemSlice .seqView := C01GenEq.New.getitemSlice_eq
+
+example : GenNew.getitemSlice { start := 1, stop := 8, step := 2, offset := 0, seqLen := 10 } (some (-1)) (some 0) (some (-2))
+    = .ok { start := -3, stop := -9, step := -4, offset := 0, seqLen := 10 } := by rfl
+
+/-- translated `__getitem__` on an integer -/
+theorem gen_new_getitemInt : GenNew.getitemInt = getitemInt := C01GenEq.New.getitemInt_eq
+
+example : GenNew.getitemInt { start := -3, stop := -10, step := -2, offset := 0, seqLen := 10 } 4 = .error .indexError := by rfl
+
+/-- translated `parent_start` / `parent_stop` -/
+theorem gen_new_parentStartStop : GenNew.parentStart = parentStart ∧ GenNew.parentStop = parentStop :=
+  ⟨C01GenEq.New.parentStart_eq, C01GenEq.New.parentStop_eq⟩
+
+example : GenNew.parentStart { start := -3, stop := -10, step := -2, offset := 5, seqLen := 10 } = .ok 6 ∧
+    GenNew.parentStop { start := 3, stop := 1, step := -2, offset := 5, seqLen := 10 } = .error .assertionError := by decide
+
+/-- translated `absolute_position` -/
+theorem gen_new_absolutePosition : GenNew.absolutePosition = @absolutePosition := C01GenEq.New.absolutePosition_eq
+
+example : GenNew.absolutePosition { start := -3, stop := -10, step := -2, offset := 5, seqLen := 10 } 1 false = .ok 11 := by decide
+
+/-- translated `relative_position` -/
+theorem gen_new_relativePosition : GenNew.relativePosition = @relativePosition := C01GenEq.New.relativePosition_eq
+
+example : GenNew.relativePosition { start := 1, stop := 8, step := 3, offset := 5, seqLen := 10 } 11 false = .ok 2 := by rfl
+
+/-- translated start/stop computation of `to_rich_dict` -/
+theorem gen_new_richDictBounds : GenNew.richDictBounds = richDictBounds := C01GenEq.New.richDictBounds_eq
+
+example : GenNew.richDictBounds { start := -3, stop := -10, step := -2, offset := 0, seqLen := 10 } = (1, 8) := by rfl
+
+/-! ### the headline theorems, restated for the TRANSLATED functions of GenNew -/
+
+/-- `mk_inv` for the translated constructor -/
+theorem gen_new_mk_inv (n : Int) (hn : 0 ≤ n) (start stop step : Option Int) (offset : Int) (v : View)
+    (h : GenNew.mk n start stop step offset (some n) = .ok v) : Inv v := by
+  rw [(gen_new_mk n start stop step offset).2.1] at h
+  exact mk_inv n hn start stop step offset v h
+
+/-- `getitem_inv` for the translated `__getitem__` -/
+theorem gen_new_getitem_inv (v : View) (h : Inv v) (a b c : Option Int) (w : View)
+    (hw : GenNew.getitemSlice v a b c = .ok w) : Inv w := by
+  rw [gen_new_getitemSlice] at hw
+  exact getitem_inv .seqView v h a b c w hw
+
+/-- **`getitem_spec` for the translated `__getitem__`**: the python code, as translated on this run, displays
+exactly the Python slice of what the view displayed -/
+theorem gen_new_getitem_spec (v w : View) (a b c : Option Int) (h : Inv v) (hc : c ≠ some 0)
+    (hw : GenNew.getitemSlice v a b c = .ok w) :
+    elems w = (PySlice.sliceIdx (GenNew.len v).toNat a b (c.getD 1)).map (fun j => first v + j * v.step) := by
+  rw [gen_new_getitemSlice] at hw
+  rw [gen_new_len]
+  exact getitem_spec .seqView v w a b c h hc hw
+
+/-- `getitem_spec_list` for the translated `__getitem__` -/
+theorem gen_new_getitem_spec_list (v w : View) (a b c : Option Int) (h : Inv v) (hc : c ≠ some 0)
+    (hw : GenNew.getitemSlice v a b c = .ok w) : elems w = PySlice.slice (elems v) a b (c.getD 1) := by
+  rw [gen_new_getitemSlice] at hw
+  exact getitem_spec_list .seqView v w a b c h hc hw
+
+/-- `getitem_no_error` for the translated `__getitem__` -/
+theorem gen_new_getitem_no_error (v : View) (a b c : Option Int) (h : Inv v) (hc : c ≠ some 0) :
+    ∃ w, GenNew.getitemSlice v a b c = .ok w := by
+  rw [gen_new_getitemSlice]
+  exact getitem_no_error .seqView v a b c h hc
+
+/-- `getitem_int_spec` for the translated `__getitem__` -/
+theorem gen_new_getitem_int_spec (v : View) (h : Inv v) (i : Int) :
+    (∀ w, GenNew.getitemInt v i = .ok w → ∃ x, PySlice.index (elems v) i = some x ∧ elems w = [x]) ∧
+    (∀ e, GenNew.getitemInt v i = .error e → PySlice.index (elems v) i = none) := by
+  rw [gen_new_getitemInt]
+  exact getitem_int_spec v h i
+
+/-- `parent_coords_exact` for the translated `parent_start` / `parent_stop` -/
+theorem gen_new_parent_coords_exact (v : View) (h : Inv v) :
+    ∃ ps pe : Int, GenNew.parentStart v = .ok (v.offset + ps) ∧ GenNew.parentStop v = .ok (v.offset + pe) ∧
+      0 ≤ ps ∧ ps ≤ pe ∧ pe ≤ v.seqLen ∧
+      elems v = (PySlice.sliceIdx (pe - ps).toNat none none v.step).map (· + ps) := by
+  rw [gen_new_parentStartStop.1, gen_new_parentStartStop.2]
+  exact parent_coords_exact v h
+
+/-- one step of a chain, through the translated `__getitem__` -/
+def genStepNew (v : View) : Op → Except Err View
+  | .slice a b c => GenNew.getitemSlice v a b c
+  | .index i => GenNew.getitemInt v i
+
+theorem genStepNew_eq : genStepNew = step1 .seqView := by
+  funext v op
+  cases op <;> simp only [genStepNew, step1, gen_new_getitemSlice, gen_new_getitemInt]
+
+/-- **`chain_spec` / `reachable_inv` for the translated code**: any chain of slice / index operations (any depth, no
+zero step) run through the translated `__getitem__` keeps the invariant and displays what the same chain of Python
+list operations yields -/
+theorem gen_new_chain_spec (ops : List Op) (v w : View) (h : Inv v)
+    (hops : ∀ op ∈ ops, op.stepOk) (hw : runOpsBy genStepNew v ops = .ok w) :
+    Inv w ∧ specRun (elems v) ops = some (elems w) := by
+  rw [genStepNew_eq, runOpsBy_step1] at hw
+  exact ⟨reachable_inv .seqView ops v w h hw, chain_spec .seqView ops v w h hops hw⟩
+
+example : runOpsBy genStepNew { start := 0, stop := 10, step := 1, offset := 0, seqLen := 10 }
+    [.slice (some 1) (some 8) (some 2), .slice none none (some (-1)), .slice (some 1) none none, .index (-1)]
+    = .ok { start := -9, stop := -10, step := -1, offset := 0, seqLen := 10 } := by rfl
+
+/-! ### GenData -/
+
+/-- `GenData.mk` (translated `__init__`) is the model's constructor -/
+theorem gen_data_mk : GenData.mk = mk := C01GenEq.Data.mk_eq
+
+example : GenData.mk 10 (some 7) (some 1) (some (-2)) 0 = .ok { start := -3, stop := -9, step := -2, offset := 0, seqLen := 10 } := by rfl
+
+/-- translated `__len__` -/
+theorem gen_data_len : GenData.len = len := C01GenEq.Data.len_eq
+
+example : GenData.len { start := 1, stop := 8, step := 3, offset := 0, seqLen := 10 } = 3 := by rfl
+
+/-- translated `_get_index` -/
+theorem gen_data_getIndex : GenData.getIndex = @getIndex := C01GenEq.Data.getIndex_eq
+
+example : GenData.getIndex { start := -3, stop := -10, step := -2, offset := 0, seqLen := 10 } (-1) false = .ok (-9, -10, -1) := by rfl
+
+/-- translated `__getitem__` on a slice (with `_get_slice`, `_get_reverse_slice`, the four
+`_get_*_slice_from_*_seqview_` methods, `copy` and `_zero_slice` of this class) -/
+theorem gen_data_getitemSlice : GenData.getitemSlice = getitemSlice .seqDataView := C01GenEq.Data.getitemSlice_eq
+
+example : GenData.getitemSlice { start := 1, stop := 8, step := 2, offset := 0, seqLen := 10 } (some (-1)) (some 0) (some (-2))
+    = .ok { start := -3, stop := -9, step := -4, offset := 0, seqLen := 10 } := by rfl
+
+/-- translated `__getitem__` on an integer -/
+theorem gen_data_getitemInt : GenData.getitemInt = getitemInt := C01GenEq.Data.getitemInt_eq
+
+example : GenData.getitemInt { start := -3, stop := -10, step := -2, offset := 0, seqLen := 10 } 4 = .error .indexError := by rfl
+
+/-- translated `parent_start` / `parent_stop` -/
+theorem gen_data_parentStartStop : GenData.parentStart = parentStart ∧ GenData.parentStop = parentStop :=
+  ⟨C01GenEq.Data.parentStart_eq, C01GenEq.Data.parentStop_eq⟩
+
+example : GenData.parentStart { start := -3, stop := -10, step := -2, offset := 5, seqLen := 10 } = .ok 6 ∧
+    GenData.parentStop { start := 3, stop := 1, step := -2, offset := 5, seqLen := 10 } = .error .assertionError := by decide
+
+/-- translated `absolute_position` -/
+theorem gen_data_absolutePosition : GenData.absolutePosition = @absolutePosition := C01GenEq.Data.absolutePosition_eq
+
+example : GenData.absolutePosition { start := -3, stop := -10, step := -2, offset := 5, seqLen := 10 } 1 false = .ok 11 := by decide
+
+/-- translated `relative_position` -/
+theorem gen_data_relativePosition : GenData.relativePosition = @relativePosition := C01GenEq.Data.relativePosition_eq
+
+example : GenData.relativePosition { start := 1, stop := 8, step := 3, offset := 5, seqLen := 10 } 11 false = .ok 2 := by rfl
+
+/-! ### the headline theorems, restated for the TRANSLATED functions of GenData -/
+
+/-- `mk_inv` for the translated constructor -/
+theorem gen_data_mk_inv (n : Int) (hn : 0 ≤ n) (start stop step : Option Int) (offset : Int) (v : View)
+    (h : GenData.mk n start stop step offset = .ok v) : Inv v := by
+  rw [gen_data_mk] at h
+  exact mk_inv n hn start stop step offset v h
+
+/-- `getitem_inv` for the translated `__getitem__` -/
+theorem gen_data_getitem_inv (v : View) (h : Inv v) (a b c : Option Int) (w : View)
+    (hw : GenData.getitemSlice v a b c = .ok w) : Inv w := by
+  rw [gen_data_getitemSlice] at hw
+  exact getitem_inv .seqDataView v h a b c w hw
+
+/-- **`getitem_spec` for the translated `__getitem__`**: the python code, as translated on this run, displays
+exactly the Python slice of what the view displayed -/
+theorem gen_data_getitem_spec (v w : View) (a b c : Option Int) (h : Inv v) (hc : c ≠ some 0)
+    (hw : GenData.getitemSlice v a b c = .ok w) :
+    elems w = (PySlice.sliceIdx (GenData.len v).toNat a b (c.getD 1)).map (fun j => first v + j * v.step) := by
+  rw [gen_data_getitemSlice] at hw
+  rw [gen_data_len]
+  exact getitem_spec .seqDataView v w a b c h hc hw
+
+/-- `getitem_spec_list` for the translated `__getitem__` -/
+theorem gen_data_getitem_spec_list (v w : View) (a b c : Option Int) (h : Inv v) (hc : c ≠ some 0)
+    (hw : GenData.getitemSlice v a b c = .ok w) : elems w = PySlice.slice (elems v) a b (c.getD 1) := by
+  rw [gen_data_getitemSlice] at hw
+  exact getitem_spec_list .seqDataView v w a b c h hc hw
+
+/-- `getitem_no_error` for the translated `__getitem__` -/
+theorem gen_data_getitem_no_error (v : View) (a b c : Option Int) (h : Inv v) (hc : c ≠ some 0) :
+    ∃ w, GenData.getitemSlice v a b c = .ok w := by
+  rw [gen_data_getitemSlice]
+  exact getitem_no_error .seqDataView v a b c h hc
+
+/-- `getitem_int_spec` for the translated `__getitem__` -/
+theorem gen_data_getitem_int_spec (v : View) (h : Inv v) (i : Int) :
+    (∀ w, GenData.getitemInt v i = .ok w → ∃ x, PySlice.index (elems v) i = some x ∧ elems w = [x]) ∧
+    (∀ e, GenData.getitemInt v i = .error e → PySlice.index (elems v) i = none) := by
+  rw [gen_data_getitemInt]
+  exact getitem_int_spec v h i
+
+/-- `parent_coords_exact` for the translated `parent_start` / `parent_stop` -/
+theorem gen_data_parent_coords_exact (v : View) (h : Inv v) :
+    ∃ ps pe : Int, GenData.parentStart v = .ok (v.offset + ps) ∧ GenData.parentStop v = .ok (v.offset + pe) ∧
+      0 ≤ ps ∧ ps ≤ pe ∧ pe ≤ v.seqLen ∧
+      elems v = (PySlice.sliceIdx (pe - ps).toNat none none v.step).map (· + ps) := by
+  rw [gen_data_parentStartStop.1, gen_data_parentStartStop.2]
+  exact parent_coords_exact v h
+
+/-- one step of a chain, through the translated `__getitem__` -/
+def genStepData (v : View) : Op → Except Err View
+  | .slice a b c => GenData.getitemSlice v a b c
+  | .index i => GenData.getitemInt v i
+
+theorem genStepData_eq : genStepData = step1 .seqDataView := by
+  funext v op
+  cases op <;> simp only [genStepData, step1, gen_data_getitemSlice, gen_data_getitemInt]
+
+/-- **`chain_spec` / `reachable_inv` for the translated code**: any chain of slice / index operations (any depth, no
+zero step) run through the translated `__getitem__` keeps the invariant and displays what the same chain of Python
+list operations yields -/
+theorem gen_data_chain_spec (ops : List Op) (v w : View) (h : Inv v)
+    (hops : ∀ op ∈ ops, op.stepOk) (hw : runOpsBy genStepData v ops = .ok w) :
+    Inv w ∧ specRun (elems v) ops = some (elems w) := by
+  rw [genStepData_eq, runOpsBy_step1] at hw
+  exact ⟨reachable_inv .seqDataView ops v w h hw, chain_spec .seqDataView ops v w h hops hw⟩
+
+example : runOpsBy genStepData { start := 0, stop := 10, step := 1, offset := 0, seqLen := 10 }
+    [.slice (some 1) (some 8) (some 2), .slice none none (some (-1)), .slice (some 1) none none, .index (-1)]
+    = .ok { start := -9, stop := -10, step := -1, offset := 0, seqLen := 10 } := by rfl
+
+end translated_agrees_with_model
 
 end CogentModel.C01
